@@ -34,24 +34,34 @@ NEEDS.update({
  "C17b": "SO3::rot_z with angles where sin(t/2) and cos(t/2) have opposite signs (t in (-pi,0), (pi,2pi) ...): canonical-sign test on q_z instead of q_w",
  "C20b": "monomial_integral<K,P> with K=9,P>=7 or K=10,P>=6: factorial products accumulated in 32 bits wrap",
 })
+NEEDS.update({
+ "C01c": "SE_K_3<K> composition with K != 2 (K >= 3; K = 1 reads out of range): rotation of the left operand read at the hard-coded offset 6 instead of 3K",
+ "C03c": "SE_K_3<K>::vee with K != 2 (K = 1 in bounds): translation column index Dim-2+i instead of 3+i",
+ "C05c": "SE2 d2r_expinv / d2l_expinv (and rminus Hessians) for 3e-4 < |wz| < 1e-2 with translations > 0.3: series branch (whose dA/dwz is the constant 1/360) used up to eps2_tail",
+ "C06c": "Bundle d2r_exp / d2l_exp when a non-commutative part's tangent segment is exactly zero: the part's Hessian block (entries +-0.5) is skipped",
+ "C09c": "DisneyStrategy selected and a trial step with rho <= 0 (overshooting Gauss-Newton step): the step is accepted, cost increases",
+ "C11c": "vel/acc/jer outputs of cspline_eval_vs/gs on groups with non-orthogonal adjoint (SE2, SE3), K >= 2: Ad(exp)^T instead of Ad(exp^-1)",
+ "C13c": "BSpline evaluation strictly inside (t_max, t_max+dt): upper clamp off by one, evaluates on K control points",
+ "C19c": "ad_sparse on a matrix that already holds non-zero stored values (re-used for a second tangent): missing setZero, result accumulates",
+})
 conf = {}
-for f in ("/tmp/confirm_all.out", "/tmp/confirm_all2.out", "/tmp/confirm_all3.out", "/tmp/confirm_all4.out"):
+for f in ("/tmp/confirm_all.out", "/tmp/confirm_all2.out", "/tmp/confirm_all3.out", "/tmp/confirm_all4.out", "/tmp/confirm_all5.out"):
     if os.path.exists(f):
         for l in open(f):
-            m = re.match(r"CONFIRM (C\d+b?): demo with change exit=(\d+), without exit=(\d+)", l)
+            m = re.match(r"CONFIRM (C\d+[bc]?): demo with change exit=(\d+), without exit=(\d+)", l)
             if m:
                 conf[m.group(1)] = (int(m.group(2)), int(m.group(3)))
 import glob as _g
 for f in _g.glob("/tmp/seed_C*/confirm_demo.txt"):
     for l in open(f):
-        m = re.match(r"CONFIRM (C\d+b?): demo with change exit=(\d+), without exit=(\d+)", l)
+        m = re.match(r"CONFIRM (C\d+[bc]?): demo with change exit=(\d+), without exit=(\d+)", l)
         if m:
             conf.setdefault(m.group(1), (int(m.group(2)), int(m.group(3))))
 tries = {}
-for f in ("/tmp/try_all.out", "/tmp/try_all2.out", "/tmp/try_all3.out", "/tmp/try_all4.out", "/tmp/try_all5.out", "/tmp/try_all6.out"):
+for f in ("/tmp/try_all.out", "/tmp/try_all2.out", "/tmp/try_all3.out", "/tmp/try_all4.out", "/tmp/try_all5.out", "/tmp/try_all6.out", "/tmp/try_all7.out"):
     if os.path.exists(f):
         for l in open(f):
-            m = re.match(r"TRY seed=(C\d+b?) check=(C\d+) exit=(\d+) : (\d+) violations; (.*)", l)
+            m = re.match(r"TRY seed=(C\d+[bc]?) check=(C\d+) exit=(\d+) : (\d+) violations; (.*)", l)
             if m:
                 tries[m.group(1)] = dict(check=m.group(2), exit=int(m.group(3)), violations=int(m.group(4)), summary=m.group(5).strip())
 for sid in sorted(NEEDS):
@@ -83,5 +93,8 @@ for sid in sorted(NEEDS):
         "check_result_with_change_applied_to_repo": tries.get(sid),
         "first_violations_reported": vio[:3],
     }
-    json.dump(meta, open(os.path.join(d, "meta.json"), "w"), indent=1)
+    mp = os.path.join(d, "meta.json")
+    if os.path.exists(mp) and not tests:
+        continue   # the confirmation logs of this seed are gone (scratch dirs removed): keep the meta written while they existed
+    json.dump(meta, open(mp, "w"), indent=1)
     print(sid, conf.get(sid), (tries.get(sid) or {}).get("violations"))
